@@ -27,6 +27,12 @@ from vf import lattice
 from vf.cli import WorkerResult
 from vf.oracles import harm
 
+
+def _gt(a, b):
+    """a > b that is also True when a is NaN (a silent NaN must never pass a tolerance test)."""
+    return ~(np.asarray(a) <= np.asarray(b))
+
+
 LEVEL = "exploration"
 RULE = (
     "complete product azimuth x polar lattice x all (l,m) <= l_max for values (two "
@@ -82,7 +88,7 @@ def _values_shard(arg):
             res.nontrivial()
             if which == "principal":
                 for nm, arr in (("recursion", rec), ("scipy", sci)):
-                    if abs(arr[row, j] - ref) > tol * (1 + abs(ref)):
+                    if _gt(abs(arr[row, j] - ref), tol * (1 + abs(ref))):
                         par = "odd-m" if m % 2 else "even-m"
                         res.violation(f"values:{nm}:differs-from-definition:{par}",
                                       f"{nm} Y(l={l}, m={m}) at azimuth={theta[j]:.6g}, polar={phi[j]:.6g}: {arr[row, j]!r}, "
@@ -91,7 +97,7 @@ def _values_shard(arg):
                         res.maximum(f"abs_err:{nm}", abs(arr[row, j] - ref))
             else:
                 # outside the principal polar range: agreement of the two implementations
-                if abs(rec[row, j] - sci[row, j]) > tol * (1 + abs(ref)):
+                if _gt(abs(rec[row, j] - sci[row, j]), tol * (1 + abs(ref))):
                     if m % 2 and abs(rec[row, j] + sci[row, j]) <= tol * (1 + abs(ref)) and np.sin(phi[j]) < 0:
                         odd_flip += 1
                     else:
@@ -129,7 +135,7 @@ def _high_degree(arg):
             l_of_row = np.floor(np.sqrt(np.arange(got.shape[0]))).astype(int)
             err = np.abs(got - ref) / (1 + np.abs(ref))
             tol = (5e-12 * (l_of_row + 1))[:, None]
-            if np.any(err > tol):
+            if np.any(_gt(err, tol)):
                 row, j = np.unravel_index(np.argmax(err / tol), err.shape)
                 l, m = harm.horton_lm(lmax)[row]
                 res.violation(f"high-degree:{nm}:differs-from-reference",
@@ -158,7 +164,7 @@ def _high_degree(arg):
         res.nontrivial()
         bound = 1e-12 * (2 * l + 1) + 1e-15 * l * (l + 1) / 2 * (2 * l + 1) / (4 * PI) * 4
         err = np.max(np.abs(blk.T @ blk - (2 * l + 1) / (4 * PI) * pl))
-        if err > bound:
+        if _gt(err, bound):
             res.violation("addition-theorem", f"sum_m Y_lm(a) Y_lm(b) differs from (2l+1)/(4 pi) P_l(cos gamma) by {err:.3e} at l={l}",
                           dict(case, l=l))
             break
@@ -196,7 +202,7 @@ def _deriv_shard(arg):
                 res.violation("derivative:non-finite", f"non-finite derivative for (l={l}, m={m}) at polar={phi[j]:.6g}", dict(case, l=l, m=m))
                 continue
             res.nontrivial()
-            if abs(out[0, row, j] - d_az) > tol * (1 + abs(d_az)):
+            if _gt(abs(out[0, row, j] - d_az), tol * (1 + abs(d_az))):
                 if which != "principal" and np.sin(phi[j]) < 0 and m % 2:
                     odd_bad += 1
                 else:
@@ -205,14 +211,14 @@ def _deriv_shard(arg):
                                   dict(case, l=l, m=m, point=j))
             if pole:
                 # documented convention: the polar derivative is (numerically) zero at the poles
-                if abs(out[1, row, j]) > 1e-10 * (l + 1) ** 2:
+                if _gt(abs(out[1, row, j]), 1e-10 * (l + 1) ** 2):
                     res.violation("derivative:polar:not-zero-at-pole",
                                   f"d/d(polar) Y(l={l}, m={m}) at the pole polar={phi[j]!r} (azimuth {theta[j]:.6g}) is "
                                   f"{out[1, row, j]!r}; the documented convention is zero", dict(case, l=l, m=m, point=j))
                 continue
             d_po = float(mp.diff(lambda b: harm.ylm_mp_angles(l, m, t, b), p))
             near = abs(np.sin(phi[j])) < 1e-6
-            if abs(out[1, row, j] - d_po) > (1e-5 if near else tol) * (1 + abs(d_po)):
+            if _gt(abs(out[1, row, j] - d_po), (1e-5 if near else tol) * (1 + abs(d_po))):
                 if which != "principal" and np.sin(phi[j]) < 0:
                     odd_bad += 1
                 else:
@@ -247,7 +253,7 @@ def solid_and_conversion(ctx):
         ctx.count(len(r), section="solid")
         ref = np.sqrt(4 * PI / (2 * l + 1)) * r**l * y[row]
         ctx.nontrivial(("solid", l, m), section="solid")
-        if np.any(np.abs(got[row] - ref) > 1e-11 * (1 + np.abs(ref))):
+        if np.any(_gt(np.abs(got[row] - ref), 1e-11 * (1 + np.abs(ref)))):
             ctx.violation("solid:differs-from-definition", f"solid harmonic (l={l}, m={m}) differs from sqrt(4pi/(2l+1)) r^l Y_lm",
                           {"route": "solid", "l": l, "m": m})
     # Cartesian closed forms pin ordering independently of any spherical convention
@@ -260,7 +266,7 @@ def solid_and_conversion(ctx):
     for (l, m), ref in forms.items():
         ctx.count(len(r), section="solid")
         ctx.nontrivial(("cart", l, m), section="solid")
-        if np.any(np.abs(got[harm.row_of(l, m)] - ref) > 1e-11 * (1 + np.abs(ref))):
+        if np.any(_gt(np.abs(got[harm.row_of(l, m)] - ref), 1e-11 * (1 + np.abs(ref)))):
             ctx.violation("solid:differs-from-cartesian-form", f"solid harmonic (l={l}, m={m}) differs from its Cartesian closed form",
                           {"route": "solid", "l": l, "m": m})
     # -- coordinate conversion
@@ -292,7 +298,7 @@ def solid_and_conversion(ctx):
         # generic interior points: sph -> cart -> sph is the identity
         gen = (sph[:, 0] > 1e-6) & (sph[:, 2] > 1e-3) & (sph[:, 2] < PI - 1e-3) & (np.abs(sph[:, 1]) < PI - 1e-3)
         b2 = back[: len(sph)][gen]
-        if np.any(np.abs(b2 - sph[gen]) > 1e-9 * (1 + np.abs(sph[gen]))):
+        if np.any(_gt(np.abs(b2 - sph[gen]), 1e-9 * (1 + np.abs(sph[gen])))):
             ctx.violation("conversion:sph-cart-sph-not-identity", "sph -> cart -> sph changes generic points", {"route": "conv"})
 
 
